@@ -380,6 +380,12 @@ def run_bulk(pid, spec, tier):
         return keep, None, None
     lines = summ.get("first_mismatches") or []
     keep["first_reports"] = lines[:5]
+    # a feeder that stopped on a non-returning call names the input (hex) on stderr
+    job_errors = " ".join(str(e) for j in summ.get("jobs", []) for e in (j.get("errors") or [])) + " " + (r.stderr or "")
+    mh = re.search(r"HANG [^\n]*?\(hex\) ([0-9a-f]*)", job_errors)
+    if mh and spec.get("kind") == "c16":
+        case = {"bytes": list(bytes.fromhex(mh.group(1)))}
+        return keep, None, {"case": {"json": case, "extra": {"bulk": "feeder stopped: " + mh.group(0)[:300]}}, "why": "bulk run: the tokenizer did not return within 20 s on this input (non-termination; the property demands termination after at most one token per byte)"}
     # a SPECFAIL / implementation panic line carries a concrete input on which the property fails
     for ln in lines:
         parts = ln.split("\t")
@@ -387,7 +393,7 @@ def run_bulk(pid, spec, tier):
             case = bulk_case_json(spec.get("kind"), parts[1])
             if case is not None:
                 return keep, None, {"case": {"json": case, "extra": {"bulk_line": ln[:2000]}}, "why": "bulk run (extracted model): " + spec.get("spec_text", "the property fails on the implementation's observation of this input")}
-    detail = "; ".join(l[:400] for l in lines[:3]) or (r.stderr[-600:])
+    detail = "; ".join(l[:400] for l in lines[:3]) or (job_errors[-600:])
     return keep, {"kind": "correspondence", "what": "bulk run: extracted model and implementation disagree", "detail": detail, "count": summ.get("mismatches")}, None
 
 
